@@ -614,6 +614,9 @@ pub fn run(ctx: &Ctx) -> Outcome {
         run_leg(ctx, &mut rep, &LegSpec { name: "asan", env_var: Some("T2N_LEG_ASAN"), n_cases: ctx.n(0, 1_000_000), big: true, big_max: 50_000, timeout_s: 400 });
         miri_slices(ctx, &mut rep, 16, 150, 900);
     }
+    if !q {
+        legs::fuzz_leg(ctx, &mut rep, 60);
+    }
     // the release leg is never skippable
     if rep.counters.get("leg_release_evaluations").copied().unwrap_or(0) == 0 && rep.violations.is_empty() {
         rep.harness_errors.push("the release leg produced no report".into());
